@@ -199,6 +199,41 @@ pub fn gen_scn(rng: &mut Rng, k: usize, with_faults: bool) -> Scn {
 		}
 		return Scn { ops, fail };
 	}
+	if with_faults && k % 8 == 7 {
+		// directed: a recursion-mode switch whose unwatch (or re-watch) fails, then the switch back (or another set)
+		let p = (*rng.pick(&["a", "b", "a/c"])).to_string();
+		let m = rng.chance(1, 2);
+		let mut first = gen_pathset(rng);
+		first.retain(|x| x.0 != p);
+		first.push((p.clone(), m));
+		let mut second = first.clone();
+		second.last_mut().unwrap().1 = !m;
+		let third = if rng.chance(2, 3) { first.clone() } else { gen_pathset(rng) };
+		let when = |rng: &mut Rng| if rng.chance(3, 4) { When::Idle } else { When::BackToBack };
+		let mut ops = vec![(When::Idle, Op::PathSet(first)), (when(rng), Op::PathSet(second.clone())), (when(rng), Op::PathSet(third))];
+		if rng.chance(1, 3) {
+			ops.push((When::Idle, Op::PathSet(second)));
+		}
+		let fail = match rng.below(3) {
+			0 => vec![(p, true, vec![0])],
+			1 => vec![(p, true, vec![0, 1])],
+			_ => vec![(p.clone(), true, vec![0]), (p, false, vec![1])],
+		};
+		return Scn { ops, fail };
+	}
+	if with_faults && k % 8 == 5 {
+		// directed: a registration fails, then the same path set is applied again (a new attempt), settled history
+		let p = (*rng.pick(&["a", "b", "a/c"])).to_string();
+		let mut set = gen_pathset(rng);
+		set.retain(|x| x.0 != p);
+		set.push((p.clone(), rng.chance(1, 2)));
+		let mut ops = vec![(When::Idle, Op::PathSet(set.clone()))];
+		if rng.chance(1, 3) {
+			ops.push((When::Idle, Op::Throttle(10)));
+		}
+		ops.push((When::Idle, Op::PathSet(set)));
+		return Scn { ops, fail: vec![(p, false, if rng.chance(1, 2) { vec![0] } else { vec![0, 1] })] };
+	}
 	let n = 1 + rng.usize(4);
 	let mut ops = vec![];
 	for i in 0..n {
@@ -630,6 +665,41 @@ fn run_scn(scn: &Scn, base: &Path) -> Outcome {
 							seen.remove(&(*inst, path.clone()));
 						}
 						_ => {}
+					}
+				}
+			}
+			// ... and every change of the path set is an attempt: a configured path that is not registered when the set
+			// is applied (again) is passed to watch() (again). Judged for the last change only, whose calls had the whole
+			// quiescence wait to show up.
+			if let (Some((_, Op::PathSet(set))), Some(t0)) = (scn.ops.last(), idle_marks.last()) {
+				let mut reg: BTreeMap<usize, BTreeMap<String, bool>> = BTreeMap::new();
+				for (_, e) in r.log.iter().filter(|(t, _)| *t <= *t0) {
+					match e {
+						WEv::Watch { inst, path, recursive, failed: false } => {
+							reg.entry(*inst).or_default().insert(path.clone(), *recursive);
+						}
+						WEv::Unwatch { inst, path, failed: false } => {
+							reg.entry(*inst).or_default().remove(path);
+						}
+						WEv::Drop { inst } => {
+							reg.remove(inst);
+						}
+						_ => {}
+					}
+				}
+				for (name, recursive) in set {
+					let abs = base.join(name).display().to_string();
+					let registered = reg.values().any(|m| m.get(&abs) == Some(recursive));
+					// (a path still registered in the other recursion mode is first unwatched: if that fails, nothing more
+					// can be done for it, which the registered-set rule excuses as well)
+					let attempted = r.log.iter().any(|(t, e)| {
+						*t > *t0 && matches!(e, WEv::Watch { path, .. } | WEv::Unwatch { path, .. } if *path == abs)
+					});
+					if !registered && !attempted && hb.peek_max_gap() < Duration::from_millis(500) {
+						violations.push((
+							"C13/unregistered-path-not-attempted".into(),
+							format!("the path set was applied with {} configured and not registered, but no watch / unwatch call for {} followed: a change of the path set is an attempt for every path that is not registered", short(&abs), short(&abs)),
+						));
 					}
 				}
 			}
